@@ -48,7 +48,7 @@ PROPS = {
     'C14': dict(names=True, k2=[], k1=['verdict', 'struct'], k3=['compile']),
     'C15': dict(k1s=True, k2=[('async', ALL)], k1=[], direct=['twin'], k3=['send']),
     'C16': dict(k1s=True, k2=[('walk', {'c', 'p', 'trace'}), ('refuse', {'c', 'p', 'trace'}), ('conv', {'c', 'p'}),
-                              ('abandon', {'c', 'p'})], k1=[]),
+                              ('abandon', {'c', 'p'}), ('around', {'c', 'p'})], k1=[]),
     'C17': dict(k2=[], k1=['struct'], k3=['nostd']),
     'C18': dict(k1s=True, k2=[('names', ALL)], k1=[], k3=['rename']),
     'C19': dict(k2=[('abandon', ALL), ('refuse', ALL)], k1=[]),
